@@ -39,7 +39,8 @@ func c06WireError(hasCode bool, code, msg string) []byte {
 	return []byte("{" + strings.Join(parts, ",") + "}")
 }
 
-func c06EndStream(hasErr bool, errBody []byte, key, val string) []byte {
+// (extra: a second metadata key and its value)
+func c06EndStream(hasErr bool, errBody []byte, key, val string, extra ...string) []byte {
 	if verifSymbolic() {
 		out := []byte{'S'}
 		if hasErr {
@@ -48,10 +49,15 @@ func c06EndStream(hasErr bool, errBody []byte, key, val string) []byte {
 			out = append(out, 0)
 		}
 		if key != "" {
-			out = append(out, 1)
+			out = append(out, byte(1+len(extra)/2))
 			out = putStr(out, key)
 			out = append(out, 1)
 			out = putStr(out, val)
+			if len(extra) == 2 {
+				out = putStr(out, extra[0])
+				out = append(out, 1)
+				out = putStr(out, extra[1])
+			}
 		} else {
 			out = append(out, 0)
 		}
@@ -62,7 +68,11 @@ func c06EndStream(hasErr bool, errBody []byte, key, val string) []byte {
 		parts = append(parts, `"error":`+string(errBody))
 	}
 	if key != "" {
-		parts = append(parts, `"metadata":{"`+key+`":["`+val+`"]}`)
+		md := `"` + key + `":["` + val + `"]`
+		if len(extra) == 2 {
+			md += `,"` + extra[0] + `":["` + extra[1] + `"]`
+		}
+		parts = append(parts, `"metadata":{`+md+`}`)
 	}
 	return []byte("{" + strings.Join(parts, ",") + "}")
 }
@@ -157,7 +167,15 @@ func HarnessC06ConnectStream() {
 		key[2] -= 0x20
 		key[4] -= 0x20
 	}
-	end := c06EndStream(hasErr, errBody, string(key), "v1")
+	// optionally the same name once more under the canonical spelling: both
+	// values belong to the one case-insensitive key
+	twice := nondetBool("sameNameTwoCasings") && string(key) != "X-Meta"
+	var end []byte
+	if twice {
+		end = c06EndStream(hasErr, errBody, string(key), "v1", "X-Meta", "v2")
+	} else {
+		end = c06EndStream(hasErr, errBody, string(key), "v1")
+	}
 	var body []byte
 	if nondetBool("message") {
 		body = append(body, refFrame(0, []byte{7})...)
@@ -190,16 +208,21 @@ func HarnessC06ConnectStream() {
 		// the end-of-stream metadata must be retrievable case-insensitively
 		// (only when the end-of-stream message itself was decodable: an
 		// invalid code string makes the whole message undecodable)
-		got := stream.ResponseTrailer().Get("X-Meta")
+		got := stream.ResponseTrailer().Values("X-Meta")
 		decoded := !hasErr
 		if serr != nil {
 			if ce, ok := asError(serr); ok && hasErr && ce.Message() == "m" {
-				got = ce.Meta().Get("X-Meta")
+				got = ce.Meta().Values("X-Meta")
 				decoded = true
 			}
 		}
 		if decoded {
-			check(got == "v1", "end-of-stream metadata is retrievable whatever casing the peer used")
+			check(containsStr(got, "v1"), "end-of-stream metadata is retrievable whatever casing the peer used")
+			if twice {
+				check(containsStr(got, "v2") && len(got) == 2, "values sent under two casings of one name are all retrievable")
+			} else {
+				check(len(got) == 1, "a metadata value arrives once")
+			}
 		}
 	}
 	_ = stream.Close()
